@@ -19,7 +19,7 @@ TIERS = {
     'thorough': {'workers': 16, 'cases': 40, 'timeout': 3400, 'random_runs': 120, 'pct_runs': 60, 'preempt_samples': 0,
                  'free_runs': 30, 'all_preemptions': True},
 }
-REQUIRED_BUCKETS = ['kind:operative', 'kind:singleton', 'kind:sequential', 'kind:clear-across-threads', 'policy:random', 'policy:pct', 'policy:preempt',
+REQUIRED_BUCKETS = ['operative:body-consults-gin-under-dynamic-registration', 'kind:operative', 'kind:singleton', 'kind:sequential', 'kind:clear-across-threads', 'policy:random', 'policy:pct', 'policy:preempt',
                     'mode:free-running', 'window:gin_wrapper', 'window:_config_str', 'window:singleton_value',
                     'singleton:same-name-race', 'singleton:nested-ctor', 'singleton:raising-ctor', 'singleton:different-names',
                     'operative:shared-scope', 'operative:new-keys-during-read', 'reads-checked', 'lock-contended']
@@ -40,6 +40,11 @@ class EmptyBuffer(Obj):
 
   def __len__(self):
     return 0
+
+
+def consult_body():
+  import gin
+  return (gin.query_parameter('fa.x'), gin.get_configurable('fa') is not None)
 
 
 def setup(ctx):
@@ -84,6 +89,13 @@ def setup(ctx):
     return x
 
   _S['use'] = use
+
+  # a configurable whose body consults Gin itself (ordinary user code: logging a hyperparameter of another configurable)
+  from vf import pkgtree
+  _S['tree'] = pkgtree.Tree()
+  _S['dyn_pk'] = _S['tree'].new_package('c18')
+
+  _S['consult'] = gin.configurable('c18consult', module='c18')(consult_body)
   root = core.repo_root()
   s = sched.Scheduler(root)
   s.install()
@@ -111,6 +123,12 @@ SCOPES = ['', 's1', 's2', 's1/s2', 's3', 's1/s4', 's5/s6/s7']
 
 
 def gen_operative(rng):
+  if rng.random() < 0.35:
+    # the configuration was parsed under dynamic registration; one thread reads config strings, the others call a configurable that asks Gin
+    # about another configurable by its (registry) name
+    progs = [[['consult']] * rng.choice([2, 3, 4]) for _ in range(rng.choice([1, 2]))]
+    progs.append([['read']] * rng.choice([3, 4, 5]))
+    return {'kind': 'operative', 'progs': progs, 'dynreg': True}
   nt = rng.choice([2, 3, 4])
   progs = []
   for t in range(nt - 1):
@@ -174,6 +192,10 @@ def iter_cases(ctx, rng, n):
 def fresh_config(case):
   import gin
   gin.clear_config()
+  if case.get('dynreg'):
+    pk = _S['dyn_pk']
+    gin.parse_config('from __gin__ import dynamic_registration\nimport %s.alpha\n%s.alpha.fa.x = 5\n' % (pk, pk))
+    return
   gin.parse_config(BASE_CONFIG)
   calls = _S['ctor_calls']
   calls['A'] = calls['B'] = calls['C'] = 0
@@ -198,6 +220,8 @@ def make_thread_fn(prog, obs):
         obs.append(('called', op[1], op[2]))
       elif op[0] == 'read':
         obs.append(('read', gin.operative_config_str()))
+      elif op[0] == 'consult':
+        obs.append(('consulted', _S['consult']()))
       elif op[0] == 'use':
         try:
           with gin.config_scope(op[1]):
@@ -290,6 +314,8 @@ def run_concurrent(ctx, case):
   nt = len(case['progs'])
   kind = case['kind']
   ctx.bucket('kind:' + kind)
+  if case.get('dynreg'):
+    ctx.bucket('operative:body-consults-gin-under-dynamic-registration')
   if kind == 'operative':
     scopes = [op[2] for p in case['progs'] for op in p if op[0] == 'call']
     if len(scopes) != len(set(scopes)):
@@ -346,8 +372,10 @@ def run_concurrent(ctx, case):
     one(sched.Policy('pct', random.Random(rng.randrange(1 << 30)), depth=d, nthreads=nt, est_steps=est), 'pct d=%d #%d' % (d, r))
   # single-preemption schedules: thread t runs first, at its k-th step hand over to j, j runs to completion/block, t resumes
   points = []
+  steps_of = {}
   for t in range(nt):
     fresh_steps = one(sched.Policy('preempt', preempt=(t, -1, 0)), 'count t=%d' % t)['steps'][t]
+    steps_of[t] = fresh_steps
     for k in range(1, fresh_steps + 1):
       for j in range(nt):
         if j != t:
@@ -359,6 +387,16 @@ def run_concurrent(ctx, case):
   for (t, k, j) in points:
     ctx.bucket('policy:preempt')
     one(sched.Policy('preempt', preempt=(t, k, j)), 'preempt t=%d k=%d -> %d' % (t, k, j))
+
+  if case.get('dynreg'):
+    # two hand-overs: a caller is stopped inside its body (after its own record was written), the reader is stopped in the middle of
+    # producing the string, the caller goes on. One hand-over cannot produce this (the reader never stops by itself).
+    reader = nt - 1
+    for _ in range(ctx.params.get('double_preemptions', 60)):
+      k1 = rng.randrange(1, steps_of[0] + 1)
+      k2 = rng.randrange(1, steps_of[reader] + 1)
+      ctx.bucket('policy:two-preemptions')
+      one(sched.Policy('preempt2', preempt=[(0, k1, reader), (reader, k2, 0)]), 'two preemptions t0@%d -> reader@%d -> t0' % (k1, k2))
 
   # free-running stress with the real locks
   from gin import config as gc
